@@ -81,6 +81,16 @@ impl Val {
     }
 }
 
+/// Display of the DelayedFormat under a width flag: `format!("{:>w$}", x.format(f))` etc. pads the rendered text (counted in characters).
+pub fn fmt_pad_event(v: &Val, f: &str, width: usize, align: char) -> Value {
+    ev("fmt_pad", json!({"ty": v.ty(), "v": v.json(), "f": cps(f), "width": width, "align": align.to_string()}), || {
+        let mut s = String::new();
+        macro_rules! w { ($x:expr) => { match align { '<' => write!(s, "{:<w$}", $x.format(f), w = width), '^' => write!(s, "{:^w$}", $x.format(f), w = width), _ => write!(s, "{:>w$}", $x.format(f), w = width) } } }
+        let r = match v { Val::D(x) => w!(x), Val::T(x) => w!(x), Val::N(x) => w!(x), Val::Z(x) => w!(x) };
+        json!({"t": v.display(f), "r": outcome(r, s)})
+    })
+}
+
 pub fn fmt_event(v: &Val, f: &str) -> Value {
     ev("fmt", json!({"ty": v.ty(), "v": v.json(), "f": cps(f)}), || json!({"r": v.display(f), "w": v.write_to(f)}))
 }
@@ -182,6 +192,8 @@ pub fn times(thorough: bool) -> Vec<NaiveTime> {
             if s == 59 { v.push(NaiveTime::from_hms_nano_opt(h, m, s, 1_000_000_000 + f).unwrap()); }   // leap second
         }
     }}}
+    // the leap-second flag on a second other than 59 (reachable through with_nanosecond, and through offsets with a seconds part)
+    for (secs, f) in [(15u32, 1_000_000_000u32), (3_600, 1_500_000_000), (86_370, 1_026_490_000), (45_030, 1_999_999_999)] { v.push(crate::proj::mk_time_any(secs, f)); }
     v
 }
 
@@ -266,6 +278,12 @@ pub fn run(ctx: &Ctx) -> Value {
             z.extend(dts(&[NaiveDate::MIN.and_hms_opt(23, 59, 59).unwrap(), NaiveDate::MAX.and_hms_opt(0, 0, 0).unwrap()], &[o]));
         }
         z.extend(headroom());
+        // a leap second seen through an offset with a seconds part: the wall-clock second is not 59
+        for (i, x) in nds.iter().filter(|x| x.and_utc().timestamp_subsec_nanos() >= 1_000_000_000).enumerate() {
+            if !th && i % 3 != 0 { continue; }
+            let o = [15, -15, 34230, -3629, 3599, 86369, 1, -31][i % 8];
+            z.push(chrono::Utc.from_utc_datetime(x).with_timezone(&FixedOffset::east_opt(o).unwrap()));
+        }
         z
     };
 
@@ -380,6 +398,20 @@ pub fn run(ctx: &Ctx) -> Value {
         tw.emit(fmt_event(&v, &f)); n += 1;
     }
     bump("random_format_events", n);
+    // 8. Display under width / alignment flags: the rendered text padded by character count
+    n = 0;
+    let pad_formats = ["%Y年%m月%d日", "é%Hh", "%A 😽", "%B", "%Y-%m-%d", "日本", "%e%b", "", "%H:%M:%S", "%Q"];
+    for (i, v) in all_vals.iter().enumerate() {
+        if i % ctx.t(9, 2) != 0 { continue; }
+        for (j, f) in pad_formats.iter().enumerate() {
+            let chars = match v.display(f).get("ok") { Some(t) => t.as_array().map(|a| a.len()).unwrap_or(0), None => 3 };
+            for (k, w) in [0, 1, chars.saturating_sub(1), chars, chars + 1, chars + 2, chars + 5, 40].iter().enumerate() {
+                if (i + j + k) % ctx.t(3, 1) != 0 { continue; }
+                tw.emit(fmt_pad_event(v, f, *w, ['<', '^', '>'][(i / ctx.t(9, 2) + j + k) % 3])); n += 1;
+            }
+        }
+    }
+    bump("padded_display_events", n);
     tw.finish();
     counts.insert("events".into(), json!(tw.total));
     counts.insert("dates".into(), json!(ds.len()));
